@@ -3,4 +3,6 @@ CONSTANTS
   MaxC = 3
   MaxLong = 14
   MaxJobs = 7
+  MaxWide = 70
+  WideJobs = {2,3,4,5,6,7,8,9,10,11,12,13,14,15,16,17,33}
 CHECK_DEADLOCK FALSE
